@@ -83,6 +83,7 @@ func cmdCheck(args []string) int {
 	if o.tier != "thorough" {
 		o.tier = "quick"
 	}
+	verifRoot = o.verif
 	res := runCheck(o)
 	return res.exit
 }
@@ -158,12 +159,15 @@ func runCheck(o checkOpts) checkResult {
 	} else {
 		os.MkdirAll(dir, 0o755)
 	}
-	sv := &Solver{dir: dir, workers: runtime.NumCPU(), quickT: 4, longT: 20, seed: seed, cache: map[string]*solveResult{}, perSolver: map[string]*solverStat{}, keep: o.dump != "", progress: o.verbose}
+	sv := &Solver{dir: dir, workers: runtime.NumCPU(), quickT: 4, longT: 20, instT: 20, seed: seed, cache: map[string]*solveResult{}, perSolver: map[string]*solverStat{}, keep: o.dump != "", progress: o.verbose}
 	if o.tier == "thorough" {
-		sv.quickT, sv.longT = 10, 120
+		sv.quickT, sv.longT, sv.instT = 10, 120, 60
 	}
 	if v := envInt("GOVC_T1", 0); v > 0 {
 		sv.quickT = v
+	}
+	if v := envInt("GOVC_TI", 0); v > 0 {
+		sv.instT = v
 	}
 	if v := envInt("GOVC_T2", 0); v > 0 {
 		sv.longT = v
